@@ -64,18 +64,21 @@ VARIABLES
   nclose,   \* connections dropped by nodes so far
   hops,     \* [fid -> redirects so far]
   phase, ready, woke, seen,
+  ntask0,   \* length of the task queue when the iteration started
+  stale,    \* the wake-up fd was signalled again after it had been read (tasks triggered by callbacks of an
+            \* iteration that ran the queue): the next iteration may see it although no task is waiting
   halted,   \* the scenario has ended (quiescence has been observed)
   mon,      \* the RcMon monitor
   out,      \* events emitted by the proxy during the current iteration (what an observer sees)
   sched     \* environment choices so far (for replay)
 
 vars == <<nsent, cbuf, cclosed, copen, closing, inq, msg, frag, outfq, infq, sopen, sgen, tasks, ttree,
-          expired, bq, b2p, bclosed, nclose, hops, phase, ready, woke, seen, halted, mon, out, sched>>
+          expired, bq, b2p, bclosed, nclose, hops, phase, ready, woke, seen, ntask0, stale, halted, mon, out, sched>>
 
 \* sched is written, never read: the exhaustive runs hide it (VIEW) so that behaviours that differ only in
 \* the order of commuting environment choices are explored once
 view == <<nsent, cbuf, cclosed, copen, closing, inq, msg, frag, outfq, infq, sopen, sgen, tasks, ttree,
-          expired, bq, b2p, bclosed, nclose, hops, phase, ready, woke, seen, halted, mon, out>>
+          expired, bq, b2p, bclosed, nclose, hops, phase, ready, woke, seen, ntask0, stale, halted, mon, out>>
 
 NoRid == <<"", 0>>
 Asking == <<"asking", 0, "">>        \* the ownerless ASKING fragment
@@ -123,7 +126,7 @@ Init ==
   /\ bq = [n \in Nodes |-> <<>>] /\ b2p = [n \in Nodes |-> <<>>]
   /\ bclosed = [n \in Nodes |-> FALSE] /\ nclose = 0
   /\ hops = <<>>
-  /\ phase = "poll" /\ ready = {} /\ woke = FALSE /\ seen = <<>>
+  /\ phase = "poll" /\ ready = {} /\ woke = FALSE /\ seen = <<>> /\ ntask0 = 0 /\ stale = FALSE
   /\ halted = FALSE
   /\ mon = MonInit /\ out = <<>>
   /\ sched = <<>>
@@ -142,15 +145,15 @@ CliSend(c, r) ==
      /\ mon' = MonApply(mon, [Ev0 EXCEPT !.ev = "send", !.c = c, !.i = i, !.k = r.k, !.slots = r.slots])
      /\ sched' = Append(sched, [op |-> "send", c |-> c, n |-> "", req |-> r, kind |-> "", cls |-> "", to |-> ""])
   /\ UNCHANGED <<cclosed, copen, closing, inq, msg, frag, outfq, infq, sopen, sgen, tasks, ttree, expired,
-                 bq, b2p, bclosed, nclose, hops, phase, ready, woke, seen, halted, out>>
+                 bq, b2p, bclosed, nclose, hops, phase, ready, woke, seen, ntask0, stale, halted, out>>
 
 CliClose(c) ==
-  /\ Env /\ AllowCliClose /\ ~cclosed[c] /\ nsent[c] > 0
+  /\ Env /\ AllowCliClose /\ ~cclosed[c] /\ (CanonKinds => nsent[c] > 0)   \* (model checking: a client that never sent is uninteresting)
   /\ cclosed' = [cclosed EXCEPT ![c] = TRUE]
   /\ mon' = MonApply(mon, [Ev0 EXCEPT !.ev = "cclose", !.c = c])
   /\ sched' = Append(sched, [op |-> "cclose", c |-> c, n |-> "", req |-> [k |-> "", slots |-> <<>>], kind |-> "", cls |-> "", to |-> ""])
   /\ UNCHANGED <<nsent, cbuf, copen, closing, inq, msg, frag, outfq, infq, sopen, sgen, tasks, ttree, expired,
-                 bq, b2p, bclosed, nclose, hops, phase, ready, woke, seen, halted, out>>
+                 bq, b2p, bclosed, nclose, hops, phase, ready, woke, seen, ntask0, stale, halted, out>>
 
 \* what a node says about the keys of a fragment
 ValsFor(kind, len) == [x \in 1..len |-> IF kind = "nil" \/ (kind = "mix" /\ x % 2 = 0) THEN "nil"
@@ -184,7 +187,7 @@ BkAnswer(n, a) ==
                           \o [x \in DOMAIN rest[2] |-> [Ev0 EXCEPT !.ev = "answerauto", !.n = n, !.conn = Conn(n)]])
      /\ sched' = Append(sched, [op |-> "answer", c |-> "", n |-> n, req |-> [k |-> "", slots |-> <<>>], kind |-> kind, cls |-> cls, to |-> to])
   /\ UNCHANGED <<nsent, cbuf, cclosed, copen, closing, inq, msg, frag, outfq, infq, sopen, sgen, tasks, ttree,
-                 expired, bclosed, nclose, phase, ready, woke, seen, halted, out>>
+                 expired, bclosed, nclose, phase, ready, woke, seen, ntask0, stale, halted, out>>
 
 BkClose(n) ==
   /\ Env /\ nclose < MaxBkClose /\ sopen[n] /\ ~bclosed[n]
@@ -194,7 +197,7 @@ BkClose(n) ==
   /\ mon' = MonApply(mon, [Ev0 EXCEPT !.ev = "bclose", !.n = n, !.conn = Conn(n)])
   /\ sched' = Append(sched, [op |-> "bclose", c |-> "", n |-> n, req |-> [k |-> "", slots |-> <<>>], kind |-> "", cls |-> "", to |-> ""])
   /\ UNCHANGED <<nsent, cbuf, cclosed, copen, closing, inq, msg, frag, outfq, infq, sopen, sgen, tasks, ttree,
-                 expired, b2p, hops, phase, ready, woke, seen, halted, out>>
+                 expired, b2p, hops, phase, ready, woke, seen, ntask0, stale, halted, out>>
 
 Expire ==   \* time passes: the earliest deadline not yet reached is reached
   /\ Env /\ TimeoutOn
@@ -206,7 +209,7 @@ Expire ==   \* time passes: the earliest deadline not yet reached is reached
                                             !.slots = <<ttree[j][3]>>])
   /\ sched' = Append(sched, [op |-> "expire", c |-> "", n |-> "", req |-> [k |-> "", slots |-> <<>>], kind |-> "", cls |-> "", to |-> ""])
   /\ UNCHANGED <<nsent, cbuf, cclosed, copen, closing, inq, msg, frag, outfq, infq, sopen, sgen, tasks, ttree,
-                 bq, b2p, bclosed, nclose, hops, phase, ready, woke, seen, halted, out>>
+                 bq, b2p, bclosed, nclose, hops, phase, ready, woke, seen, ntask0, stale, halted, out>>
 
 -----------------------------------------------------------------------------
 (* The poller iteration *)
@@ -218,9 +221,12 @@ TimerDue == \E j \in 1..Len(ttree) : ttree[j] \in expired /\ ~frag[ttree[j]].don
 
 StartIter ==
   /\ phase = "poll" /\ ~halted
-  /\ (ReadyFds # {} \/ tasks # <<>> \/ TimerDue)   \* TimerDue: the once-per-second probe wakes the loop
+  /\ (ReadyFds # {} \/ tasks # <<>> \/ TimerDue \/ stale)   \* TimerDue: the once-per-second probe wakes the loop
   /\ ready' = ReadyFds
-  /\ woke' = (tasks # <<>> \/ (ReadyFds = {} /\ TimerDue))
+  \* the wake-up fd: tasks are waiting, or a passed deadline is noticed through the periodic wake-up, or (stale) it
+  \* was signalled again after being read in the previous iteration
+  /\ \E w \in (IF stale /\ ReadyFds # {} THEN {TRUE, tasks # <<>> \/ TimerDue} ELSE {tasks # <<>> \/ TimerDue \/ stale}) : woke' = w
+  /\ ntask0' = Len(tasks) /\ stale' = FALSE
   /\ seen' = <<>> /\ out' = <<>>
   /\ phase' = "cb"
   /\ sched' = Append(sched, [op |-> "iter", c |-> "", n |-> "", req |-> [k |-> "", slots |-> <<>>], kind |-> "", cls |-> "", to |-> ""])
@@ -299,6 +305,20 @@ Route(order, c, i, m, st) ==
                              !.h.frag = (f :> [peer |-> m, owner |-> c, done |-> FALSE, ans |-> NoAns]) @@ @])
 Orders(S) == {p \in [1..Cardinality(S) -> S] : \A a, b \in 1..Cardinality(S) : a # b => p[a] # p[b]}
 
+\* OnCReact for a forwarded request whose fragments are visited in the given order (an operator with
+\* arguments on purpose: TLC must not share its value between different orders)
+Forward(c, i, m, m0, h0, order) ==
+  LET res == Route(order, c, i, m, [ok |-> TRUE, h |-> h0])
+      h1 == res.h
+  IN IF res.ok THEN [h1 EXCEPT !.inq[c] = Append(@, m)]
+     ELSE \* rejected after some fragments may already be queued: mark them done
+       LET h1a == [h1 EXCEPT !.frag = [g \in DOMAIN h1.frag |->
+                                         IF g \in m0.frs THEN [h1.frag[g] EXCEPT !.done = TRUE] ELSE h1.frag[g]]]
+           urep == PErr("unknown slot")
+       IN IF h1a.inq[c] = <<>>
+          THEN Write([h1a EXCEPT !.msg[m] = PutReset(m0)], c, urep)
+          ELSE [h1a EXCEPT !.msg[m] = [m0 EXCEPT !.done = TRUE, !.rsp = urep], !.inq[c] = Append(@, m)]
+
 CbClientReadOne(c) ==
   /\ phase = "cb" /\ <<"c", c>> \in ready
   /\ IF closing[c] THEN
@@ -328,18 +348,8 @@ CbClientReadOne(c) ==
                  /\ cbuf' = [cbuf EXCEPT ![c] = IF r.k = "quit" THEN <<>> ELSE Tail(@)]
             ELSE
               \E order \in Orders(SlotsOf(r)) :
-                LET res == Route(order, c, i, m, [ok |-> TRUE, h |-> h0])
-                    h1 == res.h
-                    h2 == IF res.ok THEN [h1 EXCEPT !.inq[c] = Append(@, m)]
-                          ELSE \* rejected after some fragments may already be queued: mark them done
-                            LET h1a == [h1 EXCEPT !.frag = [g \in DOMAIN h1.frag |->
-                                                              IF g \in m0.frs THEN [h1.frag[g] EXCEPT !.done = TRUE] ELSE h1.frag[g]]]
-                                urep == PErr("unknown slot")
-                            IN IF h1a.inq[c] = <<>>
-                               THEN Write([h1a EXCEPT !.msg[m] = PutReset(m0)], c, urep)
-                               ELSE [h1a EXCEPT !.msg[m] = [m0 EXCEPT !.done = TRUE, !.rsp = urep], !.inq[c] = Append(@, m)]
-                IN /\ SetHeap(h2)
-                   /\ cbuf' = [cbuf EXCEPT ![c] = Tail(@)]
+                /\ SetHeap(Forward(c, i, m, m0, h0, order))
+                /\ cbuf' = [cbuf EXCEPT ![c] = Tail(@)]
        /\ seen' = IF <<"c", c, 0>> \in SeqRange(seen) THEN seen ELSE Append(seen, <<"c", c, 0>>)
        /\ ready' = IF copen'[c] /\ (cbuf'[c] # <<>> \/ (cclosed[c] /\ FALSE)) THEN ready ELSE ready \ {<<"c", c>>}
      ELSE
@@ -349,7 +359,18 @@ CbClientReadOne(c) ==
        /\ ready' = ready \ {<<"c", c>>}
        /\ seen' = IF <<"c", c, 0>> \in SeqRange(seen) THEN seen ELSE Append(seen, <<"c", c, 0>>)
        /\ UNCHANGED cbuf
-  /\ UNCHANGED <<nsent, cclosed, expired, nclose, hops, phase, woke, halted, sched>>
+  /\ UNCHANGED <<nsent, cclosed, expired, nclose, hops, phase, woke, ntask0, stale, halted, sched>>
+
+\* A write to a client that has already closed its end can fail (EPIPE / ECONNRESET, depending on when the
+\* kernel saw the reset): closeConn(c) then runs in the middle of cread and the rest of what was read is
+\* dropped.  Modelled as an abort that may strike at any point of the client's callback.
+ClientAbort(c) ==
+  /\ phase = "cb" /\ <<"c", c>> \in ready /\ cclosed[c] /\ copen[c]
+  /\ SetHeap(CloseClient(Heap, c, FALSE))
+  /\ cbuf' = [cbuf EXCEPT ![c] = <<>>]
+  /\ ready' = ready \ {<<"c", c>>}
+  /\ seen' = IF <<"c", c, 0>> \in SeqRange(seen) THEN seen ELSE Append(seen, <<"c", c, 0>>)
+  /\ UNCHANGED <<nsent, cclosed, expired, nclose, hops, phase, woke, ntask0, stale, halted, sched>>
 
 -----------------------------------------------------------------------------
 RemoveFrom(seq, x) == SelectSeq(seq, LAMBDA e : e # x)
@@ -441,13 +462,13 @@ CbServerReadOne(n) ==
           IN SetHeap(h2)
        /\ ready' = ready \ {<<"s", n>>}
   /\ seen' = IF <<"s", n, sgen[n]>> \in SeqRange(seen) THEN seen ELSE Append(seen, <<"s", n, sgen[n]>>)
-  /\ UNCHANGED <<nsent, cbuf, cclosed, expired, nclose, hops, phase, woke, halted, sched>>
+  /\ UNCHANGED <<nsent, cbuf, cclosed, expired, nclose, hops, phase, woke, ntask0, stale, halted, sched>>
 
 EndCallbacks ==
   /\ phase = "cb" /\ ready = {}
   /\ phase' = IF woke THEN "tasks" ELSE "tmo"
   /\ UNCHANGED <<nsent, cbuf, cclosed, copen, closing, inq, msg, frag, outfq, infq, sopen, sgen, tasks, ttree,
-                 expired, bq, b2p, bclosed, nclose, hops, ready, woke, seen, halted, mon, out, sched>>
+                 expired, bq, b2p, bclosed, nclose, hops, ready, woke, seen, ntask0, stale, halted, mon, out, sched>>
 
 \* the task queue: write signals (tasks triggered while the queue is being run are run in the same batch)
 RECURSIVE RunAll(_)
@@ -474,7 +495,7 @@ RunAll(h) ==
                                  !.bq[n] = IF arrives THEN au[1] ELSE @,
                                  !.b2p[n] = IF arrives THEN @ \o au[2] ELSE @,
                                  !.evs = IF arrives THEN @ \o recvs \o [x \in DOMAIN au[2] |->
-                                                  [Ev0 EXCEPT !.ev = "answerauto", !.n = n, !.conn = <<n, h0.sgen[n]>>]]
+                                                  [Ev0 EXCEPT !.ev = "answerauto", !.kind = "late", !.n = n, !.conn = <<n, h0.sgen[n]>>]]
                                          ELSE @])
           ELSE RunAll(h0)
 
@@ -482,8 +503,9 @@ RunTasks ==
   /\ phase = "tasks"
   /\ SetHeap(RunAll(Heap))
   /\ phase' = "tmo" /\ woke' = FALSE
+  /\ stale' = (Len(tasks) > ntask0)    \* a callback of this iteration triggered a task after the wake-up fd was read
   /\ seen' = Append(seen, <<"W", "", 0>>)
-  /\ UNCHANGED <<nsent, cbuf, cclosed, expired, nclose, hops, ready, halted, sched>>
+  /\ UNCHANGED <<nsent, cbuf, cclosed, expired, nclose, hops, ready, ntask0, halted, sched>>
 
 \* msgTimeout: scan the tree from the earliest deadline
 RECURSIVE Scan(_)
@@ -512,15 +534,15 @@ TimeoutScan ==
                         [Ev0 EXCEPT !.ev = "iter", !.seen = [j \in DOMAIN seen |-> IF seen[j][1] = "s" THEN [k |-> "s", n |-> <<seen[j][2], seen[j][3]>>]
                                                                         ELSE [k |-> seen[j][1], n |-> seen[j][2]]]])
   /\ phase' = "poll"
-  /\ UNCHANGED <<nsent, cbuf, cclosed, expired, nclose, hops, ready, woke, seen, halted, sched>>
+  /\ UNCHANGED <<nsent, cbuf, cclosed, expired, nclose, hops, ready, woke, seen, ntask0, stale, halted, sched>>
 
 \* the scenario ends once nothing can happen inside the proxy; the observer then concludes absence
 Quiesce ==
-  /\ phase = "poll" /\ ~halted /\ ReadyFds = {} /\ tasks = <<>> /\ ~TimerDue
+  /\ phase = "poll" /\ ~halted /\ ReadyFds = {} /\ tasks = <<>> /\ ~TimerDue /\ ~stale
   /\ halted' = TRUE
   /\ mon' = MonApply(mon, [Ev0 EXCEPT !.ev = "quiesce"])
   /\ UNCHANGED <<nsent, cbuf, cclosed, copen, closing, inq, msg, frag, outfq, infq, sopen, sgen, tasks, ttree,
-                 expired, bq, b2p, bclosed, nclose, hops, phase, ready, woke, seen, out, sched>>
+                 expired, bq, b2p, bclosed, nclose, hops, phase, ready, woke, seen, ntask0, stale, out, sched>>
 
 Next ==
   \/ \E c \in Clients, r \in Menu : CliSend(c, r)
@@ -530,6 +552,7 @@ Next ==
   \/ Expire
   \/ StartIter
   \/ \E c \in Clients : CbClientReadOne(c)
+  \/ \E c \in Clients : ClientAbort(c)
   \/ \E n \in Nodes : CbServerReadOne(n)
   \/ EndCallbacks
   \/ RunTasks
